@@ -88,6 +88,7 @@ for f in ('patch.diff', 'demo.diff', 'notes.md'):
     if os.path.exists(os.path.join(src, f)) and os.path.abspath(src) != os.path.abspath(dst):
         shutil.copy(os.path.join(src, f), os.path.join(dst, f))
 json.dump(meta, open(os.path.join(dst, 'meta.json'), 'w'), indent=1)
+shutil.rmtree(os.path.join(V, 'seeded', '_pending', sid), ignore_errors=True)
 print(sid, meta['status'])
 for k, v in det.items():
     for x in v[:6]:
